@@ -25,6 +25,10 @@ pub fn with_scale(mask: u16) -> Quantizer {
     q
 }
 
+pub fn scale_script_pub(mask: u16) -> Vec<String> {
+    scale_script(mask)
+}
+
 fn scale_script(mask: u16) -> Vec<String> {
     let comp = !mask & 0xfff;
     if comp == 0 {
@@ -99,7 +103,7 @@ fn c19_record(v: f32, c: &Conversion, out: &mut Vec<Finding>) {
     let mag = v.abs().max(c.stairstep.abs()).max(c.fraction.abs());
     let tol = 2.0 * ulp32(if mag.is_finite() { mag } else { 10.0 }) as f64;
     let cv = clampv(v);
-    let ok_in = (sum - v as f64).abs() <= tol;
+    let ok_in = sum == v as f64 || (sum - v as f64).abs() <= tol;
     let ok_cl = (sum - cv as f64).abs() <= 2.0 * ulp32(cv.abs().max(c.stairstep.abs())) as f64;
     if v >= 0.0 && v <= 10.0 {
         if !ok_in {
@@ -139,10 +143,22 @@ impl QModel {
             self.mask &= !(1 << (*n).min(11));
         }
         if self.mask == 0 {
-            self.mask = 1 << (*l.last().unwrap()).min(11);
+            if let Some(n) = l.last() {
+                self.mask = 1 << (*n).min(11);
+            }
         }
     }
+    /// "the input" of C09 may be read as the raw or as the clamped value (C08 clamps, the documentation says the input is
+    /// clamped): where the two readings disagree either behaviour is accepted
     pub fn window(&self, v: f32) -> Kept {
+        let raw = self.window_of(v);
+        if v.is_nan() || (v >= 0.0 && v <= 10.0) {
+            return raw;
+        }
+        let cl = self.window_of(clampv(v));
+        if raw == cl { raw } else if raw == Kept::NoHistory { raw } else { Kept::EitherWay }
+    }
+    fn window_of(&self, v: f32) -> Kept {
         let Some(p) = self.prev else { return Kept::NoHistory };
         if self.mask >> (p % 12) & 1 == 0 || v.is_nan() {
             return Kept::MustRecompute;
@@ -180,6 +196,12 @@ pub fn convert_checked(q: &mut Quantizer, m: &mut QModel, v: f32, out: &mut Vec<
     }
     // C19 (history independent part)
     c19_record(v, &c, out);
+    if w == Kept::NoHistory && m.mask == 0xfff && !v.is_nan() {
+        let fr = c.fraction as f64;
+        if !(fr >= -1.0e-5 - 1.0e-9 && fr < ST + 1.0e-6) {
+            out.push(("C19", "chromatic-fraction", format!("convert({:?}) on a fresh chromatic quantizer: fraction {:?} is outside [0, 1) semitone", v, c.fraction)));
+        }
+    }
     // C09
     let fresh = with_scale(m.mask).convert(v);
     match w {
@@ -201,7 +223,8 @@ pub fn convert_checked(q: &mut Quantizer, m: &mut QModel, v: f32, out: &mut Vec<
             }
         }
         Kept::EitherWay => {
-            if !(c.note_num == prev.unwrap() || conv_eq(&c, &fresh)) {
+            let fresh_cl = with_scale(m.mask).convert(clampv(v));
+            if !(c.note_num == prev.unwrap() || conv_eq(&c, &fresh) || c.note_num == fresh_cl.note_num) {
                 out.push(("C09", "window-edge", format!("convert({:?}) at a window edge gives note {}, neither the previous note {:?} nor the history-free answer {}", v, c.note_num, prev, fresh.note_num)));
             }
         }
@@ -297,8 +320,8 @@ impl Machine for QuantM {
                     real |= 1 << n;
                 }
             }
-            if real != self.m.mask || self.q.verif_allowed() != self.m.mask {
-                fnd.push(("C07", "scale-edit", format!("after {} the scale is {:012b} (is_allowed) / {:012b} (stored), expected {:012b}", Self::op_str(op), real, self.q.verif_allowed(), self.m.mask)));
+            if real != self.m.mask {
+                fnd.push(("C07", "scale-edit", format!("after {} the scale is {:012b} (is_allowed), expected {:012b}", Self::op_str(op), real, self.m.mask)));
             }
             if real == 0 {
                 fnd.push(("C07", "empty-scale", format!("after {} no pitch class is allowed", Self::op_str(op))));
@@ -486,8 +509,9 @@ pub fn scale_by_route(mask: u16, route: u8) -> (Quantizer, Vec<String>) {
 fn c08_scale_route(mask: u16, inputs: Option<&[u64]>, props_c19: bool, route: u8, lc: &mut LocalCounts) {
     let id = Ideal::new(mask);
     let (template, route_script) = scale_by_route(mask, route);
-    if template.verif_allowed() != mask {
-        lc.violation(viol("C07", "scale-edit", format!("edit route {} should give scale {:012b}, got {:012b}", route, mask, template.verif_allowed()), route_script.clone()));
+    let public_mask = (0..12u8).fold(0u16, |acc, n| if template.is_allowed(Note::new(n)) { acc | 1 << n } else { acc });
+    if public_mask != mask {
+        lc.violation(viol("C07", "scale-edit", format!("edit route {} should give scale {:012b}, got {:012b}", route, mask, public_mask), route_script.clone()));
         return;
     }
     let mut prev_note: Option<u8> = None;
@@ -551,12 +575,34 @@ fn c08_scale_route(mask: u16, inputs: Option<&[u64]>, props_c19: bool, route: u8
 
 const OUTSIDE: [f32; 12] = [-1.0, -0.0, -1.0e-7, 10.000001, 10.5, 11.0, 1.0e6, f32::MAX, f32::MIN, f32::INFINITY, f32::NEG_INFINITY, -5.0e-4];
 
+/// inputs outside [0, 10] V: the named ones, powers of two and ten, values around the u32 / i32 / 2^24 limits of a
+/// microvolt count, and every f32 exponent with five mantissas, both signs (NaN excluded: no property fixes its note)
+pub fn outside_values() -> Vec<f32> {
+    let mut v: Vec<f32> = OUTSIDE.to_vec();
+    v.extend([10.00001f32, 10.0833, 12.0, 16.777216, 16.78, 100.0, 1.0e3, 2147.4836, 2147.4838, 2147.5, 4294.9673, 4294.9678, 4294.98, 4295.0, 4300.0, 8590.0, 1.0e4, 65536.0, 1.0e5, 1.6777216e7, 4.2949673e9, 1.8446744e19, 3.0e38]);
+    let more: Vec<f32> = v.iter().map(|x| -*x).collect();
+    v.extend(more);
+    for sign in [0u32, 1 << 31] {
+        for e in 0..=254u32 {
+            for m in [0u32, 1, 0x40_0000, 0x12_3456, 0x7f_ffff] {
+                v.push(f32::from_bits(sign | e << 23 | m));
+            }
+        }
+    }
+    v.retain(|x| !x.is_nan() && !(*x >= 0.0 && *x <= 10.0) || (*x == 0.0 && x.is_sign_negative()));
+    v.sort_by(|a, b| a.total_cmp(b));
+    v.dedup_by(|a, b| a.to_bits() == b.to_bits());
+    v
+}
+
 pub fn c08(ctx: &Ctx) -> Report {
     let mut rep = Report::new();
     rep.rule.push("E2: for every non-empty scale (4095) a fresh real quantizer converts every input on the lattice (thorough: all 10,000,001 microvolt values in [0,10] V; quick: +-12 uV around each of the 241 half-semitone boundaries plus a 9973 uV stride) and the note is compared with the exact nearest-allowed-note rule evaluated in 1/3-uV integers, accepting the answers for v-10uV and v+10uV; non-trivial = conversions on scales with at least one forbidden note".into());
     let lattice = quick_lattice();
     let full = ctx.tier.is_thorough();
     let lat = &lattice;
+    let outside = outside_values();
+    let outr = &outside;
     par_ranges(ctx, &mut rep, 4095, 4095, |_, lo, hi, lc| {
         for s in lo..hi {
             let mask = (s + 1) as u16;
@@ -568,7 +614,7 @@ pub fn c08(ctx: &Ctx) -> Report {
             }
             // outside the range: compare with the clamped value
             let id = Ideal::new(mask);
-            for v in OUTSIDE {
+            for &v in outr.iter() {
                 let mut q = with_scale(mask);
                 let c = q.convert(v);
                 let (a, b) = id.acceptable(clampv(v));
@@ -582,7 +628,7 @@ pub fn c08(ctx: &Ctx) -> Report {
         }
     });
     let conv = rep.counters.get("conversions").copied().unwrap_or(0);
-    rep.evaluations += conv + 4095 * OUTSIDE.len() as u64;
+    rep.evaluations += conv + 4095 * outside.len() as u64;
     rep.states += 4095;
     rep.transitions += conv;
     rep.traces += conv;
@@ -636,7 +682,9 @@ fn second_inputs(p: u8) -> Vec<f32> {
     for x in [sp, sp + ST * 0.5, sp + ST * 0.999, sp + ST * 1.05, sp - ST * 0.05, sp - ST * 0.5, sp + ST * 1.5, sp - ST * 1.5, sp + ST * 2.5, sp + 1.0, sp - 1.0, sp + 3.3, 0.0, 10.0, -1.0, 11.0] {
         v.push(x);
     }
-    v.into_iter().map(|x| x as f32).collect()
+    let mut out: Vec<f32> = v.into_iter().map(|x| x as f32).collect();
+    out.extend([f32::NAN, f32::INFINITY, f32::NEG_INFINITY, 4295.0, 1.0e6]);
+    out
 }
 
 // ------------------------------------------------------------------ C07
@@ -766,6 +814,13 @@ pub fn quant_machine(thorough: bool) -> QuantM {
     edits.push(QOp::Forbid(vec![0, 2, 4, 5, 7, 9, 11]));
     edits.push(QOp::Forbid(vec![1, 3, 6, 8, 10]));
     edits.push(QOp::Forbid(vec![200, 3]));
+    edits.push(QOp::Forbid(vec![]));
+    edits.push(QOp::Allow(vec![]));
+    edits.push(QOp::Forbid(vec![1, 1]));
+    edits.push(QOp::Forbid(vec![200, 11]));
+    edits.push(QOp::Forbid(vec![0, 1, 2, 3, 4, 5, 6, 7, 8, 9, 10, 11, 5, 7]));
+    edits.push(QOp::Forbid(vec![11, 10, 9, 8, 7, 6, 5, 4, 3, 2, 1, 0, 0, 0, 0, 0, 9]));
+    edits.push(QOp::Allow(vec![4, 4, 16, 4]));
     edits.push(QOp::Allow((0..12).collect()));
     edits.push(QOp::Allow(vec![2, 9]));
     let mut inputs: Vec<f32> = Vec::new();
@@ -780,9 +835,9 @@ pub fn quant_machine(thorough: bool) -> QuantM {
             }
         }
     }
-    inputs.extend_from_slice(&[10.0, 10.5, -0.2, 5.0]);
+    inputs.extend_from_slice(&[10.0, 10.5, -0.2, 5.0, f32::NAN, f32::INFINITY, f32::NEG_INFINITY, 4295.0]);
     if !thorough {
-        inputs.retain(|v| *v < 2.0 || *v > 9.9);
+        inputs.retain(|v| v.is_nan() || *v < 2.0 || *v > 9.9);
     }
     QuantM::new(edits, inputs)
 }
@@ -808,6 +863,11 @@ fn c09_c19(ctx: &Ctx, props: &[&'static str]) -> Report {
         scales.push(0b0101_1010_1101); // minor
         for i in 0..200u32 {
             scales.push((((i as u64 + 7) * 2654435761u64 >> 7) % 4095 + 1) as u16);
+        }
+        for a in 0..12 {
+            scales.push(0xfff & !(1 << a)); // exactly one note forbidden
+            scales.push(0xfff & !(1 << a) & !(1 << ((a + 5) % 12)));
+            scales.push(1 << a | 1 << ((a + 4) % 12) | 1 << ((a + 7) % 12)); // triads
         }
         scales.sort();
         scales.dedup();
@@ -998,6 +1058,10 @@ fn c09_c19(ctx: &Ctx, props: &[&'static str]) -> Report {
             vec![QOp::Convert(2.3541667), QOp::Forbid(vec![4]), QOp::Convert(2.3541667), QOp::Allow(vec![4])],
             vec![QOp::Forbid((0..12).collect()), QOp::Convert(0.4), QOp::Allow(vec![1, 6]), QOp::Convert(9.97), QOp::Convert(9.96)],
             vec![QOp::Convert(-1.0), QOp::Convert(0.05), QOp::Convert(-1.0), QOp::Convert(10.5)],
+            // a note held all the time: one input, and inputs wandering inside one widened bucket
+            vec![QOp::Convert(3.3)],
+            vec![QOp::Convert(5.04), QOp::Convert(5.05), QOp::Convert(5.06), QOp::Convert(4.995)],
+            vec![QOp::Convert(f32::NAN)],
         ];
         let cr = &cycles;
         let reps: u64 = 66_000;
@@ -1085,14 +1149,22 @@ pub fn c19(ctx: &Ctx) -> Report {
         }
     });
     // out of range inputs, all scales
+    let outside = outside_values();
+    let outr = &outside;
     par_ranges(ctx, &mut rep, 4095, 64, |_, lo, hi, lc| {
         let mut fnd: Vec<Finding> = Vec::new();
         for s in lo..hi {
             let mask = (s + 1) as u16;
-            for v in OUTSIDE.iter().chain([f32::NAN].iter()) {
+            for v in outr.iter().chain([f32::NAN].iter()) {
                 let mut q = with_scale(mask);
                 let c = q.convert(*v);
                 c19_record(*v, &c, &mut fnd);
+                if mask == 0xfff && !v.is_nan() {
+                    let fr = c.fraction as f64;
+                    if !(fr >= -1.0e-5 - 1.0e-9 && fr < ST + 1.0e-6) {
+                        fnd.push(("C19", "chromatic-fraction", format!("convert({:?}) on a fresh chromatic quantizer: fraction {:?} is outside [0, 1) semitone", v, c.fraction)));
+                    }
+                }
                 lc.count("out_of_range_inputs", 1);
                 for (p, cl, d) in fnd.drain(..) {
                     let mut ops = scale_script(mask);
